@@ -226,6 +226,8 @@ impl Core {
         let mut demux = self.context.tls_demux.write().unwrap();
         #[cfg(trusttunnel_verif)]
         crate::verif_emit!("ReloadLocked");
+        #[cfg(trusttunnel_verif)]
+        crate::verif::shutdown::sync::gate("tls_demux:reload:holding_write");
 
         if !settings.is_built() {
             settings.validate().map_err(|e| {
